@@ -6,6 +6,10 @@ use std::env;
 
 mod u_partial;
 mod u_members;
+mod u_readers;
+
+#[global_allocator]
+static GLOBAL: u_readers::Counting = u_readers::Counting;
 
 fn main() {
     let args: Vec<String> = env::args().collect();
@@ -20,6 +24,7 @@ fn main() {
         ("search", "c02_partial") => u_partial::search(),
         ("run", "c02_partial") => u_partial::run(rest),
         ("search", "c18_members") => u_members::search(),
+        ("search", "c09_readers") => u_readers::search(),
         _ => {
             eprintln!("unknown unit {unit}");
             std::process::exit(2);
